@@ -182,6 +182,28 @@ def _prim_semantic(chk):
            "ColExpr.map_subtree applies the callback to a node before its children were rebuilt: the callback sees stale (input) children")  # fmt: skip
     chk.ob("PRIMv", ce, f, "the result is a new root", isinstance(res, Obj) and id(res) not in originals,
            "ColExpr.map_subtree returns the input root itself")  # fmt: skip
+    # iter_children and map_children of every node class cover the same child objects (what is traversed is what is rebuilt)
+    try:
+        for o in w.expr_nodes(w.sample_tree()):
+            if o.cls.name in ("Col", "LiteralCol", "ColName", "Order"):
+                continue  # leaves; Order is a transparent wrapper (its iter_children are those of its expression)
+            it_ = o.cls.methods.get("iter_children")
+            mc_ = o.cls.methods.get("map_children")
+            if it_ is None or mc_ is None:
+                continue
+            seen_iter = [id(x) for x in w.it.iterate(w.it.call(it_.bind(o), [], {}, f, w.env))]
+            cp = o.__copy__()
+            seen_map = []
+            w.it.call(mc_.bind(cp), [Native(lambda n_, _s=seen_map: (_s.append(id(n_)), n_)[1], "g")], {}, f, w.env)
+            chk.ob("PRIMv", ce, ce.func(f"{o.cls.name}.map_children") if f"{o.cls.name}.map_children" in ce.defs else f,
+                   f"{o.cls.name}: iter_children yields exactly the children map_children rebuilds ({len(seen_iter)})", sorted(seen_iter) == sorted(seen_map),
+                   f"{o.cls.name}.iter_children yields {len(seen_iter)} children, map_children rebuilds {len(seen_map)}: children that are traversed but not rebuilt stay "
+                   "shared with the caller's expression; children that are rebuilt but not traversed escape every check that walks the tree "
+                   "(nested-aggregation, marker, column-resolution checks)")  # fmt: skip
+    except (AnalysisError, SymbolicBranch) as e:
+        chk.undecided.append(f"PRIMv: iter_children / map_children could not be interpreted: {str(e)[:160]}")
+    except PyRaise as p:
+        chk.ob("PRIMv", ce, f, "iter_children / map_children on the sample tree", False, f"iter_children / map_children raises {p.name}: {p.msg}")
     # Order.map_subtree: the ordering wrapper is copied, its expression is mapped through the same primitive
     fo = ce.func("Order.map_subtree")
     try:
